@@ -154,6 +154,19 @@ def _r1(ctx, m):
                         "the row-pointer append is conditional (" + "; ".join(("" if p else "not ") + show(simp(g))[:70] for g, p in f.guards)
                         + "): a row without stored entries gets no pointer, so the pointers no longer have n_eqns+1 entries",
                         expected="one rows.append(nnz) per row, unconditionally, before its columns")
+        # ... and the loop that emits the pointers must visit EVERY row: a loop over the non-zero entries (a filtered sequence, or groups
+        # of one) has no iteration for an all-zero row
+        for f in rows:
+            if f.loops and not hit:
+                it = simp(f.loops[-1].iter)
+                filt = [x for x in walk_(it) if isinstance(x, tuple) and x and ((x[0] == "comp" and any(g[2] for g in x[3])) or x[0] == "filtered")]
+                grp = [x for x in walk_(it) if isinstance(x, tuple) and len(x) >= 3 and x[0] == "call" and x[1] in (("global", "groupby"), ("attr", ("global", "itertools"), "groupby"))]
+                if filt and (grp or it[0] in ("comp", "filtered")):
+                    hit = True
+                    ctx.bad("R1", "rowptr-per-nonempty-row", (FILE, f.line),
+                            "the row pointers are appended in a loop over the NON-ZERO entries (" + show(it)[:90] + "): an all-zero row (a species in no reaction, the empty "
+                            "network's single row) has no iteration there, so the pointers have fewer than n_eqns+1 entries and every later row is shifted",
+                            expected="for row in range(n_eqns): rows.append(nnz) ...", found=show(it)[:120])
         if not hit:
             ctx.unrec("R1", "csr-construction", W, "CSR builder is not the row loop x column loop form; cannot decide well-formedness")
         return
